@@ -370,7 +370,7 @@ pub fn show_list<V: Val>(v: &[V]) -> String {
         if groups > 0 {
             out.push(',');
         }
-        if groups >= 24 {
+        if groups >= 24 && std::env::var_os("HEXV_FULL").is_none() {
             out.push_str(&format!("…+{}", v.len() - i));
             break;
         }
